@@ -340,11 +340,13 @@ def run_case(case):
     k0, pk0 = REAL_P256(PRIV[0])
     k1, pk1 = REAL_P256(PRIV[1])
     shared_dbs = [CryptographicDatabase(), CryptographicDatabase()]
-    conns = {}            # handle -> {"smp": [smp_i, smp_r], "db": [db_i, db_r]}
-    cur, next_h = None, 0
+    conns = {}            # connection id -> {"h": [central handle, peripheral handle], "smp": [...], "db": [...]}
+    cur, next_c = None, 0
+    by_handle = [{}, {}]  # per side: connection handle -> connection id
 
-    def connect(h, dbs):
+    def connect(cid, hs, dbs):
         for side, stack in ((0, sc), (1, sp)):
+            h = hs[side]
             W.side = side
             # contextual layer names: Layer.instantiate never writes INSTCOUNT back (every instance after the
             # second is named l2cap#1); give each L2CAP instance its own name from outside
@@ -358,7 +360,9 @@ def run_case(case):
         smp_i.set_security_database(dbs[0])
         smp_r.set_security_database(dbs[1])
         smp_r.set_responder_role()
-        conns[h] = {"smp": [smp_i, smp_r], "db": dbs}
+        conns[cid] = {"h": list(hs), "smp": [smp_i, smp_r], "db": dbs}
+        by_handle[0][hs[0]] = cid
+        by_handle[1][hs[1]] = cid
 
     # batches of procedures that run interleaved
     batches = []
@@ -380,14 +384,15 @@ def run_case(case):
             # interleaved procedures write to their own databases so that their entries can be told apart
             dbs = shared_dbs if len(batch) == 1 else [CryptographicDatabase(), CryptographicDatabase()]
             if mode == "new" or cur is None:
-                next_h += 1
-                cur = next_h
-                connect(cur, dbs)
+                next_c += 1
+                cur = next_c
+                # connection handles: given by the step (central, peripheral; need not be equal), else 1, 2, ...
+                connect(cur, step.get("handles") or [cur, cur], dbs)
             elif mode == "reconnect":
                 for side, stack in ((0, sc), (1, sp)):
                     W.side = side
-                    stack.on_disconnection(cur, 0x13)
-                connect(cur, conns[cur]["db"])
+                    stack.on_disconnection(conns[cur]["h"][side], 0x13)
+                connect(cur, conns[cur]["h"], conns[cur]["db"])
             h = cur
             worlds[h] = W
             smp_i, smp_r = conns[h]["smp"]
@@ -397,7 +402,7 @@ def run_case(case):
                        "enc0": [len(cc.enc), len(cp.enc)]}
         nmsg, timeout = 0, False
         signal.signal(signal.SIGALRM, _alarm)
-        signal.alarm(int(batch[0][1].get("watchdog", 10)) * len(batch))
+        signal.alarm(int(batch[0][1].get("watchdog", 60)) * len(batch))
         try:
             for h in sorted(worlds):
                 W = worlds[h]
@@ -411,15 +416,16 @@ def run_case(case):
             while (cc.out or cp.out) and nmsg < 4000 * len(batch):
                 for src, dst_stack, dst in ((cc, sp, 1), (cp, sc, 0)):
                     if src.out:
-                        hh, raw = src.out.popleft()
+                        sh, raw = src.out.popleft()
                         nmsg += 1
+                        hh = by_handle[1 - dst].get(sh)       # connection id from the sender's handle
                         if hh not in worlds:
                             continue
                         W = worlds[hh]
                         W.side = dst
                         W.nmsg = getattr(W, "nmsg", 0) + 1
                         try:
-                            deliver(dst_stack, raw, hh)
+                            deliver(dst_stack, raw, conns[hh]["h"][dst])
                         except Watchdog:
                             raise
                         except Exception as e:   # noqa
@@ -440,14 +446,14 @@ def run_case(case):
                 smp = conns[h]["smp"][side]
                 st = smp.state
                 W.side = side
-                llc = stack.get_layer('ll').state.connections.get(h, {})
+                llc = stack.get_layer('ll').state.connections.get(conns[h]["h"][side], {})
                 d = {"state": sget(st, "state"), "fail": sget(st, "last_failure"),
                      "exc": m["excs"][side][:3], "method": sget(st, "method"),
                      "tk": W.resolve(sget(st, "tk")), "stk": W.resolve(sget(st, "stk")), "ltk": W.resolve(sget(st, "ltk")),
                      "rand": W.resolve(sget(st, "rand")), "ediv": sget(st, "ediv"),
                      "irk": W.resolve(sget(st, "irk")), "csrk": W.resolve(sget(st, "csrk")),
                      "done": bool(smp.is_pairing_done()), "failed": bool(sget(st, "last_failure") is not None),
-                     "enc": [x for x in conn.enc[m["enc0"][side]:] if x["handle"] == h],
+                     "enc": [x for x in conn.enc[m["enc0"][side]:] if x["handle"] == conns[h]["h"][side]],
                      "db": db_dump(conns[h]["db"][side])[m["db0"][side]:],
                      "ll_key": W.resolve(llc.get("encryption_key")), "encrypted": bool(llc.get("encrypted")),
                      "ll_rand": W.ll_rand[side],
@@ -474,7 +480,7 @@ def run_case(case):
                         ks["csrk"] = W.resolve(b[::-1])
                 wire.append(ks)
             runs[m["k"]] = {"sides": sides, "preq": preq, "pres": pres, "wire": wire,
-                            "nmsg": getattr(W, "nmsg", 0) if len(batch) > 1 else nmsg, "timeout": timeout, "handle": h}
+                            "nmsg": getattr(W, "nmsg", 0) if len(batch) > 1 else nmsg, "timeout": timeout, "handles": conns[h]["h"]}
     if "seq" in case:
         return {"runs": runs}
     return runs[0]
